@@ -110,7 +110,7 @@ func c04Random(r *ev.Rand) *hx.Script {
 	nops := r.Range(3, 14)
 	attrN := map[string]int{}
 	for len(s.Ops) < nops {
-		k := r.Weighted([]int{3, 3, 6, 2, 2, 2, 2, 1})
+		k := r.Weighted([]int{3, 3, 6, 2, 2, 2, 2, 1, 1})
 		if created < 2 {
 			k = 0
 		}
@@ -196,6 +196,45 @@ func c04Random(r *ev.Rand) *hx.Script {
 			}
 			v := hx.GenNumeric(r, "[]"+dt, int(n), 3)
 			s.Ops = append(s.Ops, hx.Op{K: "write", Path: t, Data: &v})
+		case 8: // variable-length dataset: its elements wait in a heap collection shared by all
+			// vlen datasets of the session; sizes that fill the 4 KiB collection to the last byte,
+			// that exceed it, or small ones
+			if created >= nobj+2 {
+				continue
+			}
+			p := fmt.Sprintf("/v%d", created)
+			var strs []string
+			mk := func(n int) string {
+				b := make([]byte, n)
+				for i := range b {
+					b[i] = byte('a' + (i+created)%26)
+				}
+				return string(b)
+			}
+			switch r.Intn(4) {
+			case 0: // k elements whose objects (16-byte header + length rounded up to 8) add up to 4080
+				kk := r.Range(2, 4)
+				rest := 4080 - 16*kk
+				for j := 0; j < kk; j++ {
+					n := rest
+					if j < kk-1 {
+						n = 8 * r.Range(1, rest/8-(kk-1-j))
+					}
+					rest -= n
+					strs = append(strs, mk(n-r.Intn(8)*0))
+				}
+			case 1: // one element beyond a collection of the default size
+				strs = append(strs, mk(r.Range(4041, 9000)))
+			case 2:
+				strs = append(strs, mk(r.Range(4049, 5000)), mk(r.Range(1, 40)))
+			default:
+				for j := r.Range(1, 4); j > 0; j-- {
+					strs = append(strs, mk(r.Range(0, 200)))
+				}
+			}
+			v := hx.Val{Kind: "vstr", S: strs}
+			s.Ops = append(s.Ops, hx.Op{K: "create_ds", Path: p, DT: "vstr", Dims: []uint64{uint64(len(strs))}, Data: &v})
+			created++
 		case 7: // soft / external link object (itself an object that can be a hard-link target)
 			p := fmt.Sprintf("/ln%d", len(s.Ops))
 			if r.Bool() {
@@ -338,6 +377,20 @@ func c04Run(c *ev.Ctx) {
 			if allowed[dumpKey(ow)] || (ow == "/" && allowed["/"]) {
 				continue
 			}
+			// global heap collections are shared by all variable-length datasets of the file:
+			// a collection allocated while one of them was written takes elements of the others
+			if strings.HasPrefix(op.DT, "v") {
+				shared := false
+				for _, o := range owners {
+					if uint64(off) >= o.start && uint64(off) < o.end {
+						shared = int(o.start)+4 <= len(after) && string(after[o.start:o.start+4]) == "GCOL"
+						break
+					}
+				}
+				if shared {
+					continue
+				}
+			}
 			key := op.K + "->" + c04VictimKind(s, ow)
 			if !reported[key] {
 				reported[key] = true
@@ -387,6 +440,13 @@ func c04Run(c *ev.Ctx) {
 		}
 		return ex
 	}
+	hasVlen := false
+	for _, op := range s.Ops {
+		if strings.HasPrefix(op.DT, "v") {
+			hasVlen = true
+		}
+	}
+	var prevDigest map[string]string
 	nontrivial := 0
 	for k := 0; k <= len(s.Ops); k++ {
 		pf := filepath.Join(c.Dir, fmt.Sprintf("p%d.h5", k))
@@ -400,6 +460,12 @@ func c04Run(c *ev.Ctx) {
 			}
 		}
 		d := dump.File(pf, dump.Options{})
+		var digest map[string]string
+		if hasVlen {
+			// variable-length data has no reader in the library: the independent decoder's view
+			// of every object is compared from prefix to prefix as well
+			digest, _ = specDigest(pf)
+		}
 		_ = os.Remove(pf)
 		if !d.OpenRes.OK() {
 			key := "open-fail"
@@ -428,10 +494,35 @@ func c04Run(c *ev.Ctx) {
 					}
 					c.Violation(fmt.Sprintf("content-changed:%s:%s:%s:%s", op.K, st, victim, rel), wit(k, map[string]any{"op": op.String(), "changed_object": p, "before": logicalOf(prev, p), "after": logicalOf(d, p)}))
 				}
+				if prevDigest != nil && digest != nil {
+					ex := exclude(op)
+					var changed []string
+					for p, was := range prevDigest {
+						if ex[p] || ex[p+"/"] {
+							continue
+						}
+						isVlen := false
+						for _, o2 := range s.Ops {
+							if o2.K == "create_ds" && o2.Path == p && strings.HasPrefix(o2.DT, "v") {
+								isVlen = true // the decoder's view is needed only where the library has no reader
+							}
+						}
+						if !isVlen {
+							continue
+						}
+						if now, ok := digest[p]; ok && now != was {
+							changed = append(changed, p)
+						}
+					}
+					sort.Strings(changed)
+					if len(changed) > 0 {
+						c.Violation(fmt.Sprintf("content-changed(decoder):%s:unrelated", op.K), wit(k, map[string]any{"op": op.String(), "changed_object": changed[0], "before": prevDigest[changed[0]], "after": digest[changed[0]]}))
+					}
+				}
 				nontrivial++
 			}
 		}
-		prev = d
+		prev, prevDigest = d, digest
 	}
 	desc := fmt.Sprintf("sb%d|core%v|%s", s.SB, core, strings.Join(opKinds(s), ","))
 	c.Case(desc, nontrivial >= 2)
@@ -495,7 +586,7 @@ func c04VictimKind(s *hx.Script, owner string) string {
 var C04 = &ev.Property{
 	ID:    "C04",
 	Level: "exploration",
-	Rule: "histories over 2-6 live objects: (1) every order of the core set {create X, create Y, write X, write Y, attribute on X, attribute on Y, hard link to X, resize X} that respects create-before-use (2688 linear extensions: all in the thorough tier, 200 sampled in the quick tier), (2) random histories of 3-22 operations (create dataset/group, attribute bursts crossing into dense storage, delete attribute, rewrite, hard link, resize, soft/external link objects) on superblock 0/2/3, one in three split over two sessions (Close, OpenForWrite, OpenDataset for every dataset, rest of the history). " +
+	Rule: "histories over 2-6 live objects: (1) every order of the core set {create X, create Y, write X, write Y, attribute on X, attribute on Y, hard link to X, resize X} that respects create-before-use (2688 linear extensions: all in the thorough tier, 200 sampled in the quick tier), (2) random histories of 3-22 operations (create dataset/group, attribute bursts crossing into dense storage, delete attribute, rewrite, hard link, resize, soft/external link objects, variable-length datasets whose elements fill the shared 4 KiB heap collection to the last byte / exceed it / are small — histories with such data are also compared prefix by prefix through the independent decoder) on superblock 0/2/3, one in three split over two sessions (Close, OpenForWrite, OpenDataset for every dataset, rest of the history). " +
 		"Each history is executed once under a byte-ownership monitor (file snapshot before/after every call, changed bytes attributed through the allocator's block list) and once per prefix length into a fresh file; the dump after prefix k restricted to the objects op_k does not target must equal the dump after prefix k-1. non-trivial: >=2 judged prefixes; distinct = (superblock, core/random, sequence of operation kinds with their targets).",
 	Assumptions: []string{
 		"an operation may change its target object, the parent group it links into and (hard link) the link target",
